@@ -26,6 +26,8 @@ For ALL ordered segment lists, options, separation distances and solver outputs:
   `retry_limits`               channel constraints survive the rewriting: within tol of its channel-edge
                                variables every free segment is within tol of its limits;
   `satisfied_no_retry`         a satisfied round ends the loop with distance and constraints unchanged;
+  `unify_only_free_equalities` the unifying pass only ever adds equalities (gap 0) between two different
+                               variables of weight freeWeight (∀ solver answers);
   `linesort_respects_rules`    the insertion sort `linesort`, with ANY comparator that agrees with the position /
                                fixedOrder / order rules of `CmpLineOrder`, never violates the order check the
                                driver applies to every dumped region (soundness of that check);
@@ -273,6 +275,48 @@ theorem satisfied_close (o : ROpts) (vars : List Var) (st : NState) (fps : List 
     ideal nudging distance (the code asserts `baseSepDist >= 0`) -/
 theorem reduction_nonincreasing_exact (o : ROpts) (hr : ∀ r, o.rnd r = r) (hb : 0 ≤ o.base) (s : Rat) :
     nextSep o s ≤ s := nextSep_le_exact o hr hb s
+
+/-! ### the unifying pass -/
+
+/-- the unifying pass, for every sequence of solver answers: every constraint it ever hands to the solver is
+    an equality with gap 0 between two DIFFERENT variables that both carry the weight `freeWeight` (free,
+    non-final, checkpoint-free segments and zigzag centres); fixed segments, strong-weight segments and
+    checkpoint segments are never tied to anything in this pass -/
+theorem unify_only_free_equalities (o : ROpts) (segs : List RSeg) (st : UState)
+    (h : UReach o (unifyVars o segs) (unifyInit o segs) st) :
+    ∀ c ∈ st.cons, c.eq = true ∧ c.gap = 0 ∧ c.left ≠ c.right ∧
+      (∃ v, (unifyVars o segs)[c.left]? = some v ∧ v.weight = freeWeight) ∧
+      (∃ v, (unifyVars o segs)[c.right]? = some v ∧ v.weight = freeWeight) := by
+  have key : (∀ p ∈ st.pots, p ∈ (unifyInit o segs).pots) ∧
+      (∀ c ∈ st.cons, c.eq = true ∧ c.gap = 0 ∧ c.left ≠ c.right ∧ (c.left, c.right) ∈ (unifyInit o segs).pots) := by
+    induction h with
+    | start => exact ⟨fun p hp => hp, fun c hc => by simp [unifyInit] at hc⟩
+    | step fps _ hstep ih =>
+      obtain ⟨hp, hc⟩ := unifyStep_shape o _ _ fps _ hstep
+      refine ⟨fun p hpm => ih.1 p (hp p hpm), ?_⟩
+      intro c hcm
+      rcases hc c hcm with hold | ⟨he, hg, hne, hmem⟩
+      · exact ih.2 c hold
+      · exact ⟨he, hg, hne, ih.1 _ hmem⟩
+  intro c hc
+  obtain ⟨he, hg, hne, hmem⟩ := key.2 c hc
+  obtain ⟨ha, hb⟩ := unifyInit_pots o segs c.left c.right hmem
+  exact ⟨he, hg, hne, ha, hb⟩
+
+/-- non-vacuity: a unifying round on three free zigzag segments adds the equality of the two closest ones -/
+example :
+    (unifyStep ⟨false, true, false, 0, fun _ _ => false, true, 10, id⟩
+      (unifyVars ⟨false, true, false, 0, fun _ _ => false, true, 10, id⟩
+        [⟨1, 0, 100, 5, 0, 30, false, false, false, false, true, false, []⟩,
+         ⟨2, 50, 150, 5, 0, 34, false, false, false, false, true, false, []⟩,
+         ⟨3, 60, 160, 5, 0, 50, false, false, false, false, false, true, []⟩])
+      (unifyInit ⟨false, true, false, 0, fun _ _ => false, true, 10, id⟩
+        [⟨1, 0, 100, 5, 0, 30, false, false, false, false, true, false, []⟩,
+         ⟨2, 50, 150, 5, 0, 34, false, false, false, false, true, false, []⟩,
+         ⟨3, 60, 160, 5, 0, 50, false, false, false, false, false, true, []⟩])
+      [15, 17, 25]).map (fun out => (out.retry, out.next.cons, out.next.pots)) =
+    some (true, [⟨0, 1, 0, true⟩], [(0, 1), (1, 2), (0, 2)]) := by
+  decide +kernel
 
 /-! ### linesort: soundness of the order check the driver runs on every dumped region -/
 
